@@ -88,7 +88,8 @@ func expect(bv acctView, nb *nom.AccountBlock, force bool) expectation {
 	if h >= 1 && h <= uint64(len(all)) && all[h-1].Hash == nb.Hash {
 		return expectation{kind: "already"}
 	}
-	if h <= uint64(len(bv.confirmed)) || h > uint64(len(all)) || h < 2 || all[h-2].Identifier() != nb.Previous() {
+	// the parent: the block below, or the empty account-chain for a competitor for the account's first block
+	if h <= uint64(len(bv.confirmed)) || h > uint64(len(all)) || h < 1 || (h == 1 && nb.Previous() != (types.HashHeight{})) || (h >= 2 && all[h-2].Identifier() != nb.Previous()) {
 		return expectation{kind: "refused"}
 	}
 	inc := all[h-1]
